@@ -265,6 +265,44 @@ func (p *Program) applyRenames() {
 			p.aliasClosures(fmt.Sprintf("%s$%d", oldName, i+1), anon)
 		}
 	}
+	// struct types: a reference struct that no longer exists under its name, and exactly one new struct in the same
+	// package with the same field names and the same field types (up to the renamed type's own name)
+	p.typeAlias = map[string]string{}
+	refStructs, curStructs := map[string][]FieldPrint{}, map[string][]FieldPrint{}
+	for _, f := range ref.Fields {
+		refStructs[f.Struct] = append(refStructs[f.Struct], f)
+	}
+	for _, f := range cur.Fields {
+		curStructs[f.Struct] = append(curStructs[f.Struct], f)
+	}
+	structPkg := func(n string) string { return n[:strings.LastIndex(n, ".")] }
+	shape := func(fs []FieldPrint, self string) string {
+		var parts []string
+		base := self[strings.LastIndex(self, ".")+1:]
+		for _, f := range fs {
+			parts = append(parts, f.Name+":"+strings.ReplaceAll(f.Type, structPkg(self)+"."+base, "<self>"))
+		}
+		sort.Strings(parts)
+		return strings.Join(parts, ";")
+	}
+	for old, ofs := range refStructs {
+		if _, still := curStructs[old]; still {
+			continue
+		}
+		var cands []string
+		for nw, nfs := range curStructs {
+			if _, known := refStructs[nw]; known || structPkg(nw) != structPkg(old) {
+				continue
+			}
+			if shape(nfs, nw) == shape(ofs, old) {
+				cands = append(cands, nw)
+			}
+		}
+		if len(cands) == 1 {
+			p.typeAlias[old] = cands[0]
+			p.Renames = append(p.Renames, fmt.Sprintf("type %s is %s in this tree (only new struct of that package with the same fields)", old, cands[0]))
+		}
+	}
 	// fields
 	type fkey struct{ st, typ string }
 	refFields, curFields := map[fkey][]string{}, map[fkey][]string{}
